@@ -55,6 +55,7 @@ def worker_main(argv: list[str]) -> int:
         argv[0], argv[1], int(argv[2]), int(argv[3]), int(argv[4]), float(argv[5]), int(argv[6]),
         int(argv[7]),
     )
+    start = int(argv[8]) if len(argv) > 8 else widx  # a respawned worker resumes further on
     try:
         lim = 8 * 1024**3
         resource.setrlimit(resource.RLIMIT_AS, (lim, lim))
@@ -70,21 +71,24 @@ def worker_main(argv: list[str]) -> int:
     known = load_known()
     out = sys.stdout
     t0 = time.monotonic()
-    i = widx
+    i = start
     n = 0
     stopfile = os.environ.get("CIRSIM_STOPFILE")
     while n < max_runs and time.monotonic() - t0 < budget:
         if stopfile and os.path.exists(stopfile):
             break  # another worker has found a violation: the batch's verdict is settled
         run_seed = H(verif_seed, prop, i)
+        if os.environ.get("CIRSIM_TEST_KILL_AT") == str(i):
+            os._exit(9)  # self-test of the supervisor: behave like a worker killed in run i
         faulthandler.dump_traceback_later(run_timeout, exit=True)
         plan = engine.generate(prop, run_seed, tier)
         t1 = time.monotonic()
         res = engine.execute(plan)
         dt = time.monotonic() - t1
         faulthandler.cancel_dump_traceback_later()
-        rec: dict[str, Any] = {"i": i, "seed": run_seed, "dt": round(dt, 4), "res": res.to_json()}
-        if n < 3 and widx == 0:
+        rec: dict[str, Any] = {"i": i, "w": widx, "seed": run_seed, "dt": round(dt, 4),
+                               "res": res.to_json()}
+        if n < 3 and widx == 0 and start == widx:
             rec["plan"] = plan
         if res.violation is not None:
             kf = match_known(prop, res.violation, known)
@@ -232,30 +236,64 @@ def run_check(prop: str, tier: str, verif_seed: int, *, budget: float | None = N
             if len(stderr_tail) < 400:
                 stderr_tail.append(line.rstrip())
 
-    for w in range(nw):
-        p = subprocess.Popen(
-            [PY, "-u", "-m", "cirsim.cli", "_worker", prop, tier, str(verif_seed), str(w), str(nw),
-             str(cfg["budget"]), str(per_worker), str(cfg["run_timeout"])],
-            stdout=subprocess.PIPE, stderr=subprocess.PIPE, text=True, env=env, cwd=VERIF,
-        )
-        procs.append(p)
-        for fn in (reader, err_reader):
-            t = threading.Thread(target=fn, args=(p,), daemon=True)
-            t.start()
-            threads.append(t)
     hard = cfg["budget"] + 900.0  # minimisation and a last long run may overrun the soft budget
-    worker_fail = 0
-    for p in procs:
-        left = hard - (time.monotonic() - t0)
-        try:
-            p.wait(timeout=max(1.0, left))
-        except subprocess.TimeoutExpired:
+    fails = [0] * nw
+    last_i: dict[int, int] = {}
+    lock = threading.Lock()
+    _orig_add = agg.add
+
+    def add(rec: dict[str, Any]) -> None:
+        if "w" in rec:
+            with lock:
+                last_i[rec["w"]] = max(last_i.get(rec["w"], -1), rec["i"])
+        _orig_add(rec)
+
+    agg.add = add  # type: ignore[method-assign]
+
+    def supervise(w: int) -> None:
+        """Run worker slot w; if the process dies (per-run timeout, address-space limit) while
+        there is budget left, start a replacement that resumes *after* the run that killed it."""
+        start = w
+        while True:
+            left_soft = cfg["budget"] - (time.monotonic() - t0)
+            p = subprocess.Popen(
+                [PY, "-u", "-m", "cirsim.cli", "_worker", prop, tier, str(verif_seed), str(w),
+                 str(nw), str(max(1.0, left_soft)), str(per_worker), str(cfg["run_timeout"]),
+                 str(start)],
+                stdout=subprocess.PIPE, stderr=subprocess.PIPE, text=True, env=env, cwd=VERIF,
+            )
+            procs.append(p)
+            te = threading.Thread(target=err_reader, args=(p,), daemon=True)
+            te.start()
+            reader(p)  # returns when the worker closes its stdout
+            left = hard - (time.monotonic() - t0)
+            try:
+                p.wait(timeout=max(1.0, left))
+            except subprocess.TimeoutExpired:
+                p.kill()
+                p.wait()
+                fails[w] += 1
+                return
+            if p.returncode == 0:
+                return
+            fails[w] += 1
+            left_soft = cfg["budget"] - (time.monotonic() - t0)
+            if fails[w] >= 3 or left_soft < 15.0 or os.path.exists(env["CIRSIM_STOPFILE"]):
+                return
+            with lock:
+                li = last_i.get(w, start - nw)
+            start = max(li, start - nw) + 2 * nw  # skip the run that did not return
+
+    for w in range(nw):
+        t = threading.Thread(target=supervise, args=(w,), daemon=True)
+        t.start()
+        threads.append(t)
+    for t in threads:
+        t.join(timeout=max(1.0, hard + 30.0 - (time.monotonic() - t0)))
+    for p in list(procs):
+        if p.poll() is None:
             p.kill()
-            p.wait()
-            worker_fail += 1
-            continue
-        if p.returncode != 0:
-            worker_fail += 1
+    worker_fail = sum(fails)
     for t in threads:
         t.join(timeout=5)
     import shutil
